@@ -3,7 +3,7 @@ MC : NodeListImpl (transcribed MutableNodeRefList) refines NodeList for all boun
 GEN: one shortest history per transition of the implementation-shaped graph (tlc -dump).
 RUN: harness/c12.cpp replays them on the real MutableNodeRefList (native tree, Xerces wrapper built / lazy).
 TV : Trace_C12.tla accepts an execution iff every step is a step of the abstract contract."""
-import os, subprocess
+import os, subprocess, json
 import vlib, tlaparse
 from vlib import ROOT
 
@@ -137,10 +137,12 @@ def run(res, tier, seed):
                        "non-trivial = some in-document-order insertion did not append at the end or met a duplicate; "
                        "distinct by hash of (tree kind, recorded events); besides: the namespace-node order family (one event per context "
                        "element: the namespace axis, its unions with itself / single namespace nodes / attributes / children / self / parent, filtered subsets, "
-                       "all of which must be delivered in the one order the axis shows, Trace_C12ns)" % (gidx, glen, ghist))
+                       "all of which must be delivered in the one order the axis shows, Trace_C12ns), and the result-tree-fragment family (a fragment built from a known tree, "
+                       "exsl:node-set(), unions / reverse axes / positional predicates from its root against XPathSem!Eval on that tree)" % (gidx, glen, ghist))
     nns, nns_ok = nsorder_family(res, wd, quick, seed)
-    res.cov["evaluations"] += nns
-    res.cov["traces_validated_against_impl"] += nns_ok
+    nrt, nrt_ok = rtf_family(res, wd, quick, seed)
+    res.cov["evaluations"] += nns + nrt
+    res.cov["traces_validated_against_impl"] += nns_ok + nrt_ok
     for ex in execs[len(execs) // 2: len(execs) // 2 + 3]:
         res.sample(ex)
     res.assumptions += ["DOMServices::isNodeAfter is modelled by index comparison in NodeListImpl (DomOrder MC shows them equal)",
@@ -266,8 +268,114 @@ def nsorder_family(res, wd, quick, seed):
     return len(events), len(events) - len(rejects)
 
 
+def rtf_family(res, wd, quick, seed):
+    """result tree fragments turned into node-sets: a variable whose content builds a known tree T (literal elements with attributes,
+    xsl:text, xsl:comment, xsl:processing-instruction), exsl:node-set() of it, and node-set expressions evaluated from its root -
+    unions of text / element / attribute steps, reverse axes, positional predicates.  The fragment is isomorphic to T, so
+    XPathSem!Eval on T is the oracle (Trace_C02: the value, duplicate-free, in document order)."""
+    import random, subprocess
+    from xml.sax.saxutils import escape, quoteattr
+    import xdm, xpgen
+    from xpgen import path, step, bin_, fn, num, T_ANY, T_NODE, T_TEXT, T_COMMENT, t_name, t_pi, DOS
+    from props import c02
+    rng = random.Random(seed + 7)
+    rwd = os.path.join(wd, "rtf"); os.makedirs(rwd)
+    docs = [xdm.random_doc(rng, maxnodes=rng.choice([8, 12, 16])) for _ in range(6 if quick else 60)]
+    docs.append(xdm.R(xdm.E("p", xdm.T("alpha"), xdm.E("b", a=[xdm.A("k", "1")]), xdm.T("beta"), xdm.E("c", xdm.T("x"), a=[xdm.A("k", "2"), xdm.A("j", "3")]), xdm.T("gamma"))))
+    flats = [xdm.flatten(t) for t in docs]
+
+    def build(n):
+        k = n["k"]
+        if k == "elem":
+            return "<%s%s>%s</%s>" % (n["l"], "".join(" %s=%s" % (a["l"], quoteattr(a["v"])) for a in n["a"]), "".join(build(c) for c in n["c"]), n["l"])
+        if k == "text":
+            return "<xsl:text>%s</xsl:text>" % escape(n["v"])
+        if k == "comment":
+            return "<xsl:comment>%s</xsl:comment>" % escape(n["v"])
+        if k == "pi":
+            return '<xsl:processing-instruction name="%s">%s</xsl:processing-instruction>' % (n["l"], escape(n["v"]))
+        return "".join(build(c) for c in n["c"])
+    P = lambda *st, **kw: path(list(st), **kw)
+    ch, at = (lambda t, *p: step("child", t, *p)), (lambda t, *p: step("attribute", t, *p))
+    fixed = [bin_("|", P(DOS, ch(T_TEXT), abs_=True), P(DOS, ch(T_ANY), abs_=True)),
+             bin_("|", bin_("|", P(DOS, ch(T_ANY), at(T_ANY), abs_=True), P(DOS, ch(T_TEXT), abs_=True)), P(DOS, ch(T_ANY), abs_=True)),
+             P(step("descendant", T_NODE, abbr=False)), bin_("|", P(step("descendant", T_NODE, abbr=False)), P(DOS, at(T_ANY), abs_=True)),
+             P(DOS, ch(T_ANY), step("preceding-sibling", T_NODE, abbr=False), abs_=True), P(DOS, ch(T_TEXT), step("following", T_NODE, abbr=False), abs_=True),
+             bin_("|", P(DOS, at(T_ANY), step("parent", T_NODE, abbr=False), abs_=True), P(DOS, ch(T_COMMENT), abs_=True)),
+             P(DOS, ch(T_NODE, num(1)), abs_=True), P(DOS, ch(T_NODE, fn("last")), abs_=True), P(DOS, ch(T_ANY), step("ancestor-or-self", T_NODE, abbr=False), abs_=True)]
+    cases, metas = [], []
+    for d, t in enumerate(docs):
+        g = xpgen.Gen(rng)
+        exprs = fixed + [g.ns(2) for _ in range(6 if quick else 20)]
+        body = "".join('<xsl:variable name="r%d" select=%s/>' % (k, quoteattr(xpgen.render(e))) for k, e in enumerate(exprs))
+        cdir = os.path.join(rwd, "case%d" % d); os.makedirs(cdir)
+        open(os.path.join(cdir, "main.xsl"), "w").write(
+            '<xsl:stylesheet version="1.0" xmlns:xsl="http://www.w3.org/1999/XSL/Transform" xmlns:exsl="http://exslt.org/common">\n'
+            '<xsl:template match="/"><xsl:variable name="f">%s</xsl:variable><xsl:for-each select="exsl:node-set($f)">%s</xsl:for-each></xsl:template></xsl:stylesheet>'
+            % (build(t), body))
+        open(os.path.join(cdir, "in.xml"), "w").write("<r/>")
+        cases.append({"id": d, "dir": cdir, "trace": "none", "select": True})
+        metas.append(exprs)
+    exe = vlib.build_harness("xslt")
+    cp_ = os.path.join(rwd, "cases.ndjson"); vlib.write_ndjson(cp_, cases)
+    out = subprocess.run([exe, cp_], capture_output=True, text=True, timeout=1800)
+    by, cur = {}, None
+    for line in out.stdout.splitlines():
+        try:
+            ev = json.loads(line)
+        except ValueError:
+            continue
+        if ev.get("e") == "Reset":
+            cur = by.setdefault(ev["id"], [])
+        elif cur is not None:
+            cur.append(ev)
+    events = []
+    for d, exprs in enumerate(metas):
+        es = by.get(d) or []
+        sample = {"xsl": open(os.path.join(cases[d]["dir"], "main.xsl")).read()}
+        if not es or es[-1].get("e") != "Done" or es[-1].get("status") != 0:
+            res.violation("result-tree-fragment family: transformation %s" % ("failed: " + es[-1].get("msg", "")[:200] if es and es[-1].get("e") == "Done" else "died (rc=%s)" % out.returncode), [sample]); continue
+        sel = [e for e in es if e["e"] == "S" and e["el"] == "xsl:variable"]
+        if len(sel) != len(exprs):
+            raise vlib.Infra("result-tree-fragment family: %d selection events for %d expressions" % (len(sel), len(exprs)))
+        for e, sv in zip(exprs, sel):
+            v = sv["val"]
+            if v.get("t") == "ns":
+                frag = {x[0] for x in v["v"]}
+                if len(frag) > 1:
+                    res.violation("a node-set over one fragment holds nodes of %d documents: %s" % (len(frag), xpgen.render(e)), [sample]); continue
+                v = {"t": "ns", "v": [[d + 1, x[1], 0] for x in v["v"]]}
+            events.append({"e": "Eval", "kind": "eval", "doc": d + 1, "ctx": 1, "pos": 1, "size": 1, "text": xpgen.render(e), "expr": xpgen.strip_render_only(e), "vars": {},
+                           "res": v, "nsmap": [], "family": "rtf", "flatdoc": flats[d], "xsl": sample["xsl"]})
+    dpath = os.path.join(rwd, "docs.ndjson")
+    vlib.write_ndjson(dpath, flats)
+    rejects, st = vlib.tlc_validate_sharded(c02.TRACE, [{k: v for k, v in e.items() if k not in ("family", "flatdoc", "xsl")} for e in events], tag="c12rtf", env={"DOCS": dpath}, stateless=True, timeout=3000)
+    for rj in rejects:
+        ev = events[rj["line"]]
+        res.violation("node-set over a result tree fragment, %s: %s" % (ev["text"], rj["msg"][:300]), [ev])
+    res.notes["rtf_nodeset_evaluations"] = len(events)
+    res.notes["rtf_nodeset_not_judged"] = st["dropped"]
+    return len(events), len(events) - len(rejects) - st["dropped"]
+
+
 def replay(path):
     events = vlib.read_ndjson(path)
+    if events and events[0].get("family") == "rtf":
+        from props import c02
+        wd = vlib.workdir("c12replay-%d" % os.getpid())
+        dpath = os.path.join(wd, "docs.ndjson")
+        vlib.write_ndjson(dpath, [events[0]["flatdoc"]])
+        evs = []
+        for ev in events:
+            e2 = {k: v for k, v in ev.items() if k not in ("family", "flatdoc", "xsl")}
+            e2["doc"] = 1
+            if e2["res"].get("t") == "ns":
+                e2["res"] = {"t": "ns", "v": [[1, x[1], 0] for x in e2["res"]["v"]]}
+            evs.append(e2)
+        rejects, _ = vlib.tlc_validate_sharded(c02.TRACE, evs, shards=1, tag="c12rtfreplay", env={"DOCS": dpath}, stateless=True)
+        for r in rejects:
+            print("REJECTED: %s" % r["msg"][:2000])
+        return 1 if rejects else 0
     if events and events[0].get("e") == "NsOrder":
         wd = vlib.workdir("c12replay-%d" % os.getpid())
         dpath = os.path.join(wd, "docs.ndjson")
